@@ -376,6 +376,7 @@ type hole struct {
 	list       string // for hDots: "args", "elts", "fields", "stmts", "forhdr"
 	sep        string // separator to use when filling a dots run
 	name       string // metavariable name (assigned later)
+	top        bool   // hDots: a run of the top-level statements of a statement pattern
 }
 
 // findHoles parses the fragment and lists the places that can be abstracted.
@@ -409,6 +410,7 @@ func findHoles(k fragKind, frag string) ([]hole, bool) {
 		_ = hi
 	}
 	var root ast.Node
+	topDone := false
 	ast.Inspect(f, func(n ast.Node) bool {
 		if n == nil {
 			return false
@@ -456,6 +458,24 @@ func findHoles(k fragKind, frag string) ([]hole, bool) {
 					ns = append(ns, a)
 				}
 				addRun("stmts", "\n", ns, 0, 0)
+			} else if k == kStmts && !topDone && s < 0 && len(x.List) >= 2 {
+				// the top-level statements of a statement pattern: an explicit "..." line between
+				// (or around) the pattern's own statements, never the whole pattern
+				topDone = true
+				var ns []ast.Node
+				for _, a := range x.List {
+					ns = append(ns, a)
+				}
+				before := len(holes)
+				addRun("stmts", "\n", ns, 0, 0)
+				kept := holes[:before]
+				for _, h := range holes[before:] {
+					if !(h.start == 0 && h.end >= len(strings.TrimRight(frag, "\n"))) {
+						h.top = true
+						kept = append(kept, h)
+					}
+				}
+				holes = kept
 			}
 		case *ast.ForStmt:
 			if inside {
@@ -585,6 +605,18 @@ func (g *gen) pickHolesMode(all []hole) []hole {
 			}
 		}
 	}
+	if g.mode != "c02" && g.chance(0.35) {
+		// an explicit "..." line among the top-level statements of a statement pattern
+		var tops []hole
+		for _, h := range all {
+			if h.top && !overlaps(h, chosen) {
+				tops = append(tops, h)
+			}
+		}
+		if len(tops) > 0 {
+			chosen = append(chosen, tops[g.r.Intn(len(tops))])
+		}
+	}
 	for _, h := range g.pickHoles(all, 3) {
 		if !overlaps(h, chosen) {
 			chosen = append(chosen, h)
@@ -629,6 +661,9 @@ func fill(frag string, holes []hole, texts []string) string {
 
 func (g *gen) runFor(h hole) string {
 	n := g.r.Intn(4)
+	if h.top && g.chance(0.4) {
+		return emptyRun // the elision stands for nothing: the block may be shorter than the pattern has lines
+	}
 	var xs []string
 	for i := 0; i < n; i++ {
 		switch h.list {
@@ -845,6 +880,10 @@ func (g *gen) derivePlus(p *pattern) string {
 	}
 	switch p.kind {
 	case kExpr:
+		if g.mode == "c03" && len(mvs) > 0 && g.chance(0.12) {
+			// the whole replacement is what a metavariable stood for: whether it fits depends on the site
+			return mvs[g.r.Intn(len(mvs))] + "\n"
+		}
 		switch g.r.Intn(8) {
 		case 0:
 			return "wrap(" + strings.TrimRight(minus, "\n") + ")\n"
@@ -951,11 +990,18 @@ func (g *gen) makePattern() (*pattern, bool) {
 	case kGenDecl:
 		frag = g.genDecl()
 	}
-	all, ok := findHoles(k, frag)
-	if !ok {
-		return nil, false
+	var holes []hole
+	if multi := g.multiDots(k); multi != nil && g.chance(map[string]float64{"c04": 0.25, "c02": 0.2, "c05": 0.2, "c01": 0.1, "c03": 0.1, "mix": 0.1}[g.mode]) {
+		// several "..." in one list with a metavariable bound before one of them and used again
+		// after a later one: the shortest run of the first "..." usually has to be given up
+		k, frag, holes = multi.kind, multi.frag, multi.holes
+	} else {
+		all, ok := findHoles(k, frag)
+		if !ok {
+			return nil, false
+		}
+		holes = g.pickHolesMode(all)
 	}
-	holes := g.pickHolesMode(all)
 	p := &pattern{kind: k, frag: frag, holes: holes}
 	// name metavariables; identical texts share a name most of the time
 	byText := map[string]string{}
@@ -968,6 +1014,14 @@ func (g *gen) makePattern() (*pattern, bool) {
 		case hDots:
 			texts[i] = "..."
 		case hExpr, hIdent:
+			if h.name != "" { // preassigned (multiDots): every occurrence is the same metavariable
+				if _, seen := byText["pre"+h.name]; !seen {
+					byText["pre"+h.name] = h.name
+					exprNames = append(exprNames, h.name)
+				}
+				texts[i] = h.name
+				continue
+			}
 			key := fmt.Sprint(h.kind) + h.text
 			if n, ok := byText[key]; ok && g.chance(g.shareProb()) {
 				h.name = n
@@ -993,6 +1047,57 @@ func (g *gen) makePattern() (*pattern, bool) {
 	}
 	p.plus = g.derivePlus(p)
 	return p, true
+}
+
+// multiDots builds a fragment of the shape  f(r1, E, r2, F, r3, E)  (or the statement
+// analogue) whose runs r* become "..." and whose two occurrences of E become one metavariable.
+func (g *gen) multiDots(k fragKind) *pattern {
+	var sb strings.Builder
+	var holes []hole
+	simple := func() string { return g.pick("1", "2", "a", "b", "x.y", "f()", `"s"`, "nil", "a+b") }
+	e := simple()
+	add := func(kind holeKind, text, list, sep string, top bool) {
+		h := hole{kind: kind, start: sb.Len(), end: sb.Len() + len(text), text: text, list: list, sep: sep, top: top}
+		if kind == hExpr && (text == e || text == "open("+e+")") {
+			h.name = "mvs"
+		}
+		holes = append(holes, h)
+		sb.WriteString(text)
+	}
+	f := simple()
+	for f == e {
+		f = simple()
+	}
+	nd := 2 + g.r.Intn(2) // two or three elisions
+	if k == kStmts {
+		v := g.ident()
+		sb.WriteString(v + " := ")
+		add(hExpr, "open("+e+")", "", "", false)
+		sb.WriteString("\n")
+		add(hDots, "step1()", "stmts", "\n", true)
+		sb.WriteString("\ndefer recover()\n")
+		add(hDots, "step2()", "stmts", "\n", true)
+		sb.WriteString("\nuse(")
+		add(hExpr, "open("+e+")", "", "", false)
+		sb.WriteString(")\n")
+		return &pattern{kind: kStmts, frag: sb.String(), holes: holes}
+	}
+	sb.WriteString(g.pick(funcNames...) + "(")
+	add(hDots, simple(), "args", ", ", false)
+	sb.WriteString(", ")
+	add(hExpr, e, "", "", false)
+	sb.WriteString(", ")
+	add(hDots, simple(), "args", ", ", false)
+	if nd == 3 {
+		sb.WriteString(", ")
+		add(hExpr, f, "", "", false)
+		sb.WriteString(", ")
+		add(hDots, simple(), "args", ", ", false)
+	}
+	sb.WriteString(", ")
+	add(hExpr, e, "", "", false)
+	sb.WriteString(")\n")
+	return &pattern{kind: kExpr, frag: sb.String(), holes: holes}
 }
 
 // instance fills the pattern's holes with fresh code. With probability
@@ -1037,6 +1142,10 @@ func (g *gen) instance(p *pattern, pInconsistent float64) string {
 				t := h.text
 				if g.chance(0.5) {
 					t = g.pick("alpha", "beta", "gamma", "a", "foo")
+				}
+				if (g.mode == "c02" || g.mode == "c01" || g.mode == "mix") && g.chance(0.15) {
+					// not a single identifier: where the slot admits an expression this is a near miss
+					t = g.pick("pkg.Name", "bytes.Buffer", "a.b.c", "fmt.Println", "(alpha)", "xs[0]", "*p", "f()", "os.Args")
 				}
 				if _, ok := bind[h.name]; !ok {
 					bind[h.name] = t
@@ -1214,7 +1323,7 @@ func (g *gen) fileWith(p *pattern, frags []string, pkg string, imports []string)
 		nf++
 		sb.WriteString(fmt.Sprintf("func fn%d() {\n%s}\n\n", nf, indent(body, "\t")))
 	}
-	for _, fr := range frags {
+	for fi, fr := range frags {
 		fr = strings.TrimRight(fr, "\n")
 		switch p.kind {
 		case kExpr:
@@ -1226,7 +1335,17 @@ func (g *gen) fileWith(p *pattern, frags []string, pkg string, imports []string)
 				// the instance as the leftmost part of a longer expression (same start position)
 				fr = fr + g.pick(".Error()", ".Close().Error()", "[0]", "(1)", " + 1", ".x.y", ".Do(fr)", " == nil")
 			}
-			switch g.r.Intn(8) {
+			ctxSel := g.r.Intn(8)
+			pc := 0.15
+			if t := strings.TrimSpace(p.plus); strings.HasPrefix(t, "mv") && !strings.ContainsAny(t, " (.") {
+				pc = 0.6 // the replacement is a bare metavariable: admissibility differs from site to site
+			}
+			if g.chance(pc) && parses("package p\nfunc _() {\n\tdefer "+fr+"\n}\n") {
+				ctxSel = 8 // a slot that holds a call only (*ast.CallExpr), not any expression
+			}
+			switch ctxSel {
+			case 8:
+				body += g.pick("defer ", "go ") + fr + "\n"
 			case 0:
 				body += "_ = " + fr + "\n"
 			case 1:
@@ -1249,6 +1368,19 @@ func (g *gen) fileWith(p *pattern, frags []string, pkg string, imports []string)
 		case kStmts:
 			pre := g.block(1, 2)
 			post := g.block(1, 2)
+			if g.chance(0.3) {
+				// a decoy in front: the first statement of a differently filled instance, so that the
+				// first section of the pattern matches early and the rest of the pattern does not
+				other := strings.SplitN(strings.TrimRight(frags[(fi+1)%len(frags)], "\n"), "\n", 2)[0]
+				if !strings.HasSuffix(other, "{") && !strings.HasSuffix(other, "(") && !strings.HasSuffix(other, ",") &&
+					!strings.HasPrefix(other, "return") && !strings.HasPrefix(other, "break") && !strings.HasPrefix(other, "continue") &&
+					!strings.HasPrefix(other, "goto") && parses("package p\nfunc _() {\n"+other+"\n}\n") {
+					pre += other + "\n"
+					if g.chance(0.5) {
+						pre += g.block(1, 1)
+					}
+				}
+			}
 			switch g.r.Intn(7) {
 			case 5, 6:
 				// an instance and, among the other statements of the same block, a nested block with another one
@@ -1561,6 +1693,16 @@ func genEngineCases(seed int64, n int, mode string) []Case {
 		} else if g.mode == "c09" {
 			// a chain: change k+1 matches only what change k produced
 			texts := []string{patch}
+			guard := ""
+			if ic.patchHead == "" && g.chance(0.4) {
+				// the first change adds an import; the later ones are guarded by it (or, rarely, by one nobody adds)
+				texts[0] = desc + header + p.meta + ic.meta + "@@\n+import \"example.com/added\"\n\n" + body
+				guard = " import \"example.com/added\"\n\n"
+				if g.chance(0.2) {
+					guard = " import \"example.com/never\"\n\n"
+				}
+				note += " import-chain"
+			}
 			cur := p
 			for step, n := 0, 1+g.r.Intn(2); step < n; step++ {
 				next := &pattern{kind: cur.kind, frag: cur.frag, holes: cur.holes, minus: cur.plus, meta: cur.meta}
@@ -1568,7 +1710,7 @@ func genEngineCases(seed int64, n int, mode string) []Case {
 				if next.plus == next.minus {
 					break
 				}
-				texts = append(texts, "@@\n"+next.meta+"@@\n"+lineDiff(next.minus, next.plus))
+				texts = append(texts, "@@\n"+next.meta+"@@\n"+guard+lineDiff(next.minus, next.plus))
 				cur = next
 			}
 			if g.chance(0.3) {
